@@ -339,6 +339,19 @@ func init() {
 					prfs = append(prfs, delegation.FromLink(cidlink.Link{Cid: randCid(r, cst)}))
 				}
 			}
+			if nprf > 0 && r.Intn(4) == 0 {
+				// the same proof named twice (once by its link, once in full, or twice alike), as far apart as the list allows:
+				// the proof list that was issued is the proof list that is read back
+				first := prfs[0]
+				dupe := first
+				if _, isD := first.Delegation(); isD && r.Intn(2) == 0 {
+					dupe = delegation.FromLink(first.Link())
+					prfs = append(delegation.Proofs{dupe}, prfs...) // link first, the full one later
+				} else {
+					prfs = append(prfs, dupe)
+				}
+				nprf++
+			}
 			if nprf > 0 {
 				opts = append(opts, receipt.WithProofs(prfs))
 			}
@@ -665,7 +678,30 @@ func init() {
 				return err
 			}
 		}
-		return writeJSON(o.out, "stats.json", map[string]any{"receipts": n, "verify_calls": nverify, "alteration_histogram": altHist,
+		// receipts issued BY THE SERVER for handlers that return effects (forks only, a join only, both): the effects of the
+		// receipt are the effects the handler returned
+		srvRcpts := 0
+		rb := rand.New(rand.NewSource(o.seed + 77))
+		for bi := 0; bi < 60; bi++ {
+			b := randomBatch(rb, bi, o.seed+77, 4, false)
+			for can := range b.Handlers {
+				b.Handlers[can] = []string{"okfx", "okjoin", "okfxjoin", "ok"}[(bi+len(can))%4]
+			}
+			b.Handlers["store/add"] = []string{"okjoin", "okfx", "okfxjoin"}[bi%3]
+			if err := b.W.Build(); err != nil {
+				return err
+			}
+			bobs := b.Run(nil)
+			for _, rc := range bobs.Rcpts {
+				if rc.Class == "ok" {
+					srvRcpts++
+				}
+				if rc.FxBad != "" {
+					direct = append(direct, map[string]any{"receipt": fmt.Sprintf("server batch %d", bi), "shape": "issued by server.Run", "what": "read-back differs from what was issued: effects of a receipt issued by the server (" + rc.FxBad + ")"})
+				}
+			}
+		}
+		return writeJSON(o.out, "stats.json", map[string]any{"receipts": n, "verify_calls": nverify, "alteration_histogram": altHist, "receipts_issued_by_a_server": srvRcpts,
 			"distinct_shapes": len(shapeHist), "rebinds": nrebind, "concurrently_issued": nconc, "direct_violations": direct, "samples": samples, "byte_cases": len(cases)})
 	}
 }
